@@ -2,7 +2,7 @@
    a directory of chunk files "%08d.ext", each a singleapp file of at most fileSize bytes,
    the current chunk held open for writing, older chunks opened on demand and kept in a cache.
 
-   Not modelled: compression, Copy, the SIEVE eviction of the handle cache (maxOpenedFiles is
+   Not modelled: compression, the SIEVE eviction of the handle cache (maxOpenedFiles is
    assumed large enough that nothing is evicted: a cached handle stays until SetOffset /
    DiscardUpto pops it or a rotation replaces it), the background prefetch (prefetchAheadDepth = 0,
    the default), failing OS calls.  Handles of non-current chunks are opened with the default
@@ -250,6 +250,25 @@ Definition m_create (fs : N) (prealloc : bool) (meta : bytes) (o : oopts) : mapp
   mkm [(0, F)] 0 (h_open F (ro_nobuf o)) []
       fs meta prealloc (o_ro o) (o_retry o) (o_auto o) (o_buf o) false.
 
+(* Copy(dst): sync of the current chunk (unless read-only), then every file of the directory is
+   copied as it is.  The result is what multiapp.Open(dst, read-only) then holds: Size() bytes read
+   from offset 0. *)
+Definition m_copy (m : mapp) : mapp * out :=
+  if m_closed m then (m, OErr)
+  else
+    let '(m1, x) := if m_ro m then (m, OOk)
+                    else let '(h', F', x) := h_sync_op (m_app m) (cur_file m) in (m_upd_cur m h' F', x) in
+    match x with
+    | OOk =>
+        let c := m_reopen m1 (mko true 0 (m_retry m) (m_auto m)) in
+        match m_size c with
+        | ON sz => (m1, if sz =? 0 then OCopy []
+                        else match snd (m_readat c sz 0) with ORead bs _ => OCopy bs | _ => OCopy [] end)
+        | _ => (m1, OCopy [])
+        end
+    | _ => (m1, OErr)
+    end.
+
 Definition m_step (m : mapp) (o : op) : mapp * out :=
   match o with
   | Append bs => m_append m bs
@@ -266,6 +285,7 @@ Definition m_step (m : mapp) (o : op) : mapp * out :=
       if m_closed m then if opts_valid o then (m_reopen m o, OOk) else (m, OErr)
       else (m, OErr)
   | Meta => (m, OBytes (m_meta m))
+  | Copy => m_copy m
   end.
 
 Fixpoint m_run (m : mapp) (ops : list op) : list out :=
@@ -300,6 +320,8 @@ Definition m_risky (m : mapp) (o : op) : bool :=
       negb (m_closed m) && m_stale m && (m_end m <? off + n) &&
       ((m_offset m =? m_end m) || (m_end m <=? off))
   | Reopen _ => m_closed m && m_dirty m
+  | Copy =>   (* the copy is a reopen of the same files (after the sync of the current chunk) *)
+      negb (m_closed m) && (m_stale m || (h_offset (m_app m) <? len (cur_file m)))
   | _ => false
   end.
 
